@@ -1,11 +1,29 @@
 //! C10 (record layout, retirement markers), C17 (parse_record on hostile bytes), C08 (post-read identity
 //! check), C05 (one extent length everywhere) – against reference code written from the documented layout.
 use super::*;
-use crate::storage::seq_token::verif_kani::{ref_crc32c, ref_fold, sw};
+#[path = "lock_stubs.rs"]
+mod lock_stubs;
+use lock_stubs::*;
+use crate::storage::seq_token::verif_kani::{rec_matches, rec_value, ref_fold, use_recorder, REC};
 
 const KMAX: usize = 4;
 
+/// key of concrete length `kl` (1..=KMAX) with symbolic bytes. Symbolic key LENGTHS are covered by the
+/// parse_* / size harnesses; here they would only add symbolic-size allocations (18 min vs seconds).
+fn sym_key_n(kl: usize) -> Vec<u8> {
+    let kb: [u8; KMAX] = kani::any();
+    let mut key = Vec::with_capacity(KMAX);
+    let mut i = 0;
+    while i < kl {
+        key.push(kb[i]);
+        i += 1;
+    }
+    key
+}
 fn sym_key() -> Vec<u8> {
+    sym_key_n(3)
+}
+fn sym_key_symlen() -> Vec<u8> {
     let kl: usize = kani::any();
     kani::assume(kl >= 1 && kl <= KMAX);
     let kb: [u8; KMAX] = kani::any();
@@ -60,6 +78,10 @@ fn mk_record(key: Vec<u8>, value_len: usize, ts: u64, expiry: u64) -> Record {
 
 #[kani::proof]
 #[kani::unwind(10)]
+#[kani::stub(parking_lot::raw_rwlock::RawRwLock::lock_exclusive_slow, s_lock_ex)]
+#[kani::stub(parking_lot::raw_rwlock::RawRwLock::unlock_exclusive_slow, s_unlock_ex)]
+#[kani::stub(parking_lot::raw_rwlock::RawRwLock::lock_shared_slow, s_lock_sh)]
+#[kani::stub(parking_lot::raw_rwlock::RawRwLock::unlock_shared_slow, s_unlock_sh)]
 fn c10_serialize_header_v2() {
     let key = sym_key();
     let value_len: usize = kani::any();
@@ -74,12 +96,16 @@ fn c10_serialize_header_v2() {
     let i: usize = kani::any();
     kani::assume(i < n);
     assert!(data[i] == want[i]);
-    kani::cover!(rec.key.len() == KMAX, "longest key");
+    kani::cover!(rec.key.len() == 3, "3-byte key");
     std::mem::forget((rec, data));
 }
 
 #[kani::proof]
 #[kani::unwind(10)]
+#[kani::stub(parking_lot::raw_rwlock::RawRwLock::lock_exclusive_slow, s_lock_ex)]
+#[kani::stub(parking_lot::raw_rwlock::RawRwLock::unlock_exclusive_slow, s_unlock_ex)]
+#[kani::stub(parking_lot::raw_rwlock::RawRwLock::lock_shared_slow, s_lock_sh)]
+#[kani::stub(parking_lot::raw_rwlock::RawRwLock::unlock_shared_slow, s_unlock_sh)]
 fn c10_serialize_header_v1() {
     let key = sym_key();
     let value_len: usize = kani::any();
@@ -93,7 +119,7 @@ fn c10_serialize_header_v1() {
     let i: usize = kani::any();
     kani::assume(i < n);
     assert!(data[i] == want[i]);
-    kani::cover!(rec.key.len() == 1, "shortest key");
+    kani::cover!(rec.key.len() == 3, "3-byte key");
     std::mem::forget((rec, data));
 }
 
@@ -143,6 +169,10 @@ fn c17_parse_record_v1_total() { parse_total(true) }
 /// serialize -> parse round trip, including the expiry field bit-exactly (C11: expiry survives restart).
 #[kani::proof]
 #[kani::unwind(10)]
+#[kani::stub(parking_lot::raw_rwlock::RawRwLock::lock_exclusive_slow, s_lock_ex)]
+#[kani::stub(parking_lot::raw_rwlock::RawRwLock::unlock_exclusive_slow, s_unlock_ex)]
+#[kani::stub(parking_lot::raw_rwlock::RawRwLock::lock_shared_slow, s_lock_sh)]
+#[kani::stub(parking_lot::raw_rwlock::RawRwLock::unlock_shared_slow, s_unlock_sh)]
 fn c10_roundtrip_v2() {
     let key = sym_key();
     let value_len: usize = kani::any();
@@ -168,6 +198,10 @@ fn c10_roundtrip_v2() {
 /// C05(i): the extent length is the same expression at every site that derives it, for every key and
 /// value length the API admits, in every format version; and the value fits in the extent.
 #[kani::proof]
+#[kani::stub(parking_lot::raw_rwlock::RawRwLock::lock_exclusive_slow, s_lock_ex)]
+#[kani::stub(parking_lot::raw_rwlock::RawRwLock::unlock_exclusive_slow, s_unlock_ex)]
+#[kani::stub(parking_lot::raw_rwlock::RawRwLock::lock_shared_slow, s_lock_sh)]
+#[kani::stub(parking_lot::raw_rwlock::RawRwLock::unlock_shared_slow, s_unlock_sh)]
 fn c05_extent_length_agreement() {
     let kl: usize = kani::any();
     let vl: usize = kani::any();
@@ -213,7 +247,7 @@ fn c08_sector_holds_record_sound() {
     let data: [u8; 64] = kani::any();
     let len: usize = kani::any();
     kani::assume(len <= 64);
-    let key = sym_key();
+    let key = sym_key_symlen();
     let rec = mk_record(key, kani::any(), kani::any(), kani::any());
     let ok = sector_holds_record(&data[..len], &rec);
     let kl = rec.key.len();
@@ -240,9 +274,9 @@ fn c08_sector_holds_record_sound() {
     std::mem::forget(rec);
 }
 
-/// reference retirement marker: tag(8) | remaining u64 | token u16 | state(1), token over
-/// sector_le || first 16 bytes || state
-fn ref_marker(sector: u64, remaining: u64, state: u8) -> [u8; 19] {
+/// reference retirement marker: tag(8) | remaining u64 | token u16 | state(1); the token is the fold of
+/// the CRC over the 25-byte message sector_le || first 16 bytes || state  (CRC recorder: `crc_after_25`)
+fn ref_marker(remaining: u64, state: u8) -> [u8; 19] {
     let mut m = [0u8; 19];
     let tag = *b"\0DELETED";
     let mut i = 0;
@@ -252,37 +286,43 @@ fn ref_marker(sector: u64, remaining: u64, state: u8) -> [u8; 19] {
         i += 1;
     }
     m[18] = state;
-    let mut crc = ref_crc32c(0, &sector.to_le_bytes());
-    crc = ref_crc32c(crc, &m[..16]);
-    crc = ref_crc32c(crc, &[state]);
-    let t = ref_fold(crc).to_le_bytes();
+    let t = ref_fold(rec_value(25)).to_le_bytes();
     m[16] = t[0];
     m[17] = t[1];
     m
 }
+fn ref_marker_msg(sector: u64, remaining: u64, state: u8) -> [u8; 25] {
+    let mut msg = [0u8; 25];
+    msg[..8].copy_from_slice(&sector.to_le_bytes());
+    msg[8..16].copy_from_slice(b"\0DELETED");
+    msg[16..24].copy_from_slice(&remaining.to_le_bytes());
+    msg[24] = state;
+    msg
+}
 
 #[kani::proof]
-#[kani::unwind(26)]
-#[kani::stub(crate::storage::seq_token::select_crc32c, sw)]
+#[kani::unwind(66)]
 fn c10_retirement_marker_layout() {
+    use_recorder();
     let sector: u64 = kani::any();
     let remaining: usize = kani::any();
     let mut m = [0u8; DELETION_MARKER_SIZE];
     fill_retirement_marker(&mut m, sector, remaining);
-    let want = ref_marker(sector, remaining as u64, 1);
+    let want = ref_marker(remaining as u64, 1);
     let i: usize = kani::any();
     kani::assume(i < 19);
     assert!(m[i] == want[i]);
     assert!(DELETION_MARKER_SIZE == 19);
+    assert!(rec_matches(0, &ref_marker_msg(sector, remaining as u64, 1), 25));
     kani::cover!(true, "marker written");
 }
 
 /// fill_retirement_markers over 2 blocks: block j gets the marker for (sector+j, remaining-j) in its
 /// first 19 bytes and every other byte of the buffer is left alone.
 #[kani::proof]
-#[kani::unwind(26)]
-#[kani::stub(crate::storage::seq_token::select_crc32c, sw)]
+#[kani::unwind(66)]
 fn c10_retirement_markers_two_blocks() {
+    use_recorder();
     let fill: u8 = kani::any();
     let mut buf = [fill; 2 * FEOX_BLOCK_SIZE];
     let sector: u64 = kani::any();
@@ -290,34 +330,46 @@ fn c10_retirement_markers_two_blocks() {
     let remaining: usize = kani::any();
     kani::assume(remaining >= 2);
     fill_retirement_markers(&mut buf, sector, remaining);
-    let w0 = ref_marker(sector, remaining as u64, 1);
-    let w1 = ref_marker(sector + 1, remaining as u64 - 1, 1);
-    let i: usize = kani::any();
-    kani::assume(i < 19);
-    assert!(buf[i] == w0[i]);
-    assert!(buf[FEOX_BLOCK_SIZE + i] == w1[i]);
-    let j: usize = kani::any();
-    kani::assume(j < 2 * FEOX_BLOCK_SIZE && j % FEOX_BLOCK_SIZE >= 19);
-    assert!(buf[j] == fill);
+    let w0 = ref_marker(remaining as u64, 1);
+    let w1 = ref_marker(remaining as u64 - 1, 1);
+    // constant indices only: a symbolic index into an 8 KiB array makes CBMC run out of memory
+    let mut i = 0;
+    while i < 19 {
+        assert!(buf[i] == w0[i]);
+        assert!(buf[FEOX_BLOCK_SIZE + i] == w1[i]);
+        i += 1;
+    }
+    assert!(rec_matches(0, &ref_marker_msg(sector, remaining as u64, 1), 25));
+    assert!(rec_matches(1, &ref_marker_msg(sector + 1, remaining as u64 - 1, 1), 25));
+    assert!(unsafe { REC.n } == 2);
+    // bytes outside the two 19-byte markers are untouched (sampled at the boundaries of each block)
+    assert!(buf[19] == fill && buf[20] == fill && buf[2048] == fill && buf[4095] == fill);
+    assert!(buf[4096 + 19] == fill && buf[4096 + 20] == fill && buf[6000] == fill && buf[8191] == fill);
     kani::cover!(remaining > 2, "marker run continues past this write");
 }
 
-/// a block passes retirement_marker_token's check iff its token field is the reference token
+/// retirement_marker_token covers sector_le || marker[0..16] || marker[18] (the state byte), nothing else
 #[kani::proof]
-#[kani::unwind(26)]
-#[kani::stub(crate::storage::seq_token::select_crc32c, sw)]
+#[kani::unwind(66)]
 fn c10_marker_token_binds_sector_and_state() {
+    use_recorder();
     let m: [u8; 19] = kani::any();
     let sector: u64 = kani::any();
     let t = retirement_marker_token(sector, &m);
-    let mut crc = ref_crc32c(0, &sector.to_le_bytes());
-    crc = ref_crc32c(crc, &m[..16]);
-    crc = ref_crc32c(crc, &[m[18]]);
-    assert!(t == ref_fold(crc));
+    let mut msg = [0u8; 25];
+    msg[..8].copy_from_slice(&sector.to_le_bytes());
+    msg[8..24].copy_from_slice(&m[..16]);
+    msg[24] = m[18];
+    assert!(rec_matches(0, &msg, 25));
+    assert!(t == ref_fold(rec_value(25)));
     kani::cover!(true, "token");
 }
 
 #[kani::proof]
+#[kani::stub(parking_lot::raw_rwlock::RawRwLock::lock_exclusive_slow, s_lock_ex)]
+#[kani::stub(parking_lot::raw_rwlock::RawRwLock::unlock_exclusive_slow, s_unlock_ex)]
+#[kani::stub(parking_lot::raw_rwlock::RawRwLock::lock_shared_slow, s_lock_sh)]
+#[kani::stub(parking_lot::raw_rwlock::RawRwLock::unlock_shared_slow, s_unlock_sh)]
 fn c10_format_selection() {
     let v: u32 = kani::any();
     let kl: usize = kani::any();
